@@ -20,7 +20,15 @@ tau = _m.tau
 
 PYTHAG = [False]  # add sin^2 + cos^2 == 1 (makes queries nonlinear)
 
-_HALF_PI = sc.to_real(_m.pi / 2)
+from fractions import Fraction as _Fr
+# rational enclosure of pi (50 digits): interval end points in the axioms use the side that keeps each axiom valid
+_PI_LO_Q = _Fr('3.14159265358979323846264338327950288419716939937510')
+_PI_HI_Q = _PI_LO_Q + _Fr(1, 10 ** 49)
+_PI_LO = z3.RealVal(_PI_LO_Q)
+_PI_HI = z3.RealVal(_PI_HI_Q)
+_HALF_PI_LO = z3.RealVal(_PI_LO_Q / 2)
+_HALF_PI_HI = z3.RealVal(_PI_HI_Q / 2)
+_HALF_PI = sc.to_real(_m.pi / 2)     # the float constants the library itself computes with
 _PI = sc.to_real(_m.pi)
 
 
@@ -125,7 +133,7 @@ def atan(x):
         return _m.atan(c)
     r, new = uf_app('atan', [x.v], mono=1)
     if new:
-        sc.EX.add_axiom(z3.And(r > -_HALF_PI, r < _HALF_PI, (r == 0) == (x.v == 0), (r > 0) == (x.v > 0)),
+        sc.EX.add_axiom(z3.And(r > -_HALF_PI_HI, r < _HALF_PI_HI, (r == 0) == (x.v == 0), (r > 0) == (x.v > 0)),
                         'atan: range (-pi/2,pi/2), sign, zero, strictly increasing')
         _odd_even('atan', x.v, r, True)
     if not x.simple():
@@ -178,8 +186,8 @@ def _sincos(x):
     c, new_c = uf_app('cos', [x.v])
     if new_s or new_c:
         ax = [s >= -1, s <= 1, c >= -1, c <= 1, z3.Implies(x.v == 0, z3.And(s == 0, c == 1)),
-              z3.Implies(z3.And(x.v > 0, x.v < _PI), s > 0), z3.Implies(z3.And(x.v > -_HALF_PI, x.v < _HALF_PI), c > 0),
-              z3.Implies(z3.And(x.v > 0, x.v < _PI), z3.Not(z3.And(s == 0)))]
+              z3.Implies(z3.And(x.v > 0, x.v < _PI_LO), s > 0), z3.Implies(z3.And(x.v < 0, x.v > -_PI_LO), s < 0),
+              z3.Implies(z3.And(x.v > -_HALF_PI_LO, x.v < _HALF_PI_LO), c > 0)]
         if PYTHAG[0] or sc.AX['pythag']:
             ax.append(s * s + c * c == 1)
         sc.EX.add_axiom(z3.And(*ax), 'sin/cos: range [-1,1], sin^2+cos^2=1, signs on (0,pi)/(-pi/2,pi/2), values at 0')
@@ -221,7 +229,7 @@ def tan(x):
     x = SF.lift(x)
     r, new = uf_app('tan', [x.v])
     if new:
-        sc.EX.add_axiom(z3.Implies(z3.And(x.v > -_HALF_PI, x.v < _HALF_PI), z3.And((r == 0) == (x.v == 0), (r > 0) == (x.v > 0))), 'tan: sign on (-pi/2,pi/2)')
+        sc.EX.add_axiom(z3.Implies(z3.And(x.v > -_HALF_PI_LO, x.v < _HALF_PI_LO), z3.And((r == 0) == (x.v == 0), (r > 0) == (x.v > 0))), 'tan: sign on (-pi/2,pi/2)')
     return SF(bsimp(bor(x.nan, x.isinf())), r)
 
 
@@ -232,8 +240,7 @@ def asin(x):
     x = SF.lift(x)
     r, new = uf_app('asin', [x.v], mono=0)
     if new:
-        sc.EX.add_axiom(z3.Implies(z3.And(x.v >= -1, x.v <= 1), z3.And(r >= -_HALF_PI, r <= _HALF_PI, (r == 0) == (x.v == 0), (r > 0) == (x.v > 0),
-                                                                     (r == _HALF_PI) == (x.v == 1), (r == -_HALF_PI) == (x.v == -1))),
+        sc.EX.add_axiom(z3.Implies(z3.And(x.v >= -1, x.v <= 1), z3.And(r >= -_HALF_PI_HI, r <= _HALF_PI_HI, (r == 0) == (x.v == 0), (r > 0) == (x.v > 0))),
                         'asin: range [-pi/2,pi/2], sign, end points')
         for (a2, v2) in sc.EX.apps['asin'][:-1]:
             sc.EX.add_axiom(z3.Implies(z3.And(x.v >= -1, x.v <= 1, a2[0] >= -1, a2[0] <= 1),
